@@ -15,7 +15,7 @@
    the hardware; tools/c2v.py's skeleton extractor and its R/W classification table (HELPER_RW, SHARED_FIELDS).  *)
 From Coq Require Import List Bool String.
 Import ListNotations.
-From RtrV Require Import Conc.RwLock Gen.LockSkeletons Conc.LockCheck Conc.ConcProofs.
+From RtrV Require Import Conc.RwLock Gen.LockSkeletons Conc.LockCheck Conc.ConcProofs Conc.Sections.
 Local Open Scope list_scope.
 
 Section Generic.
@@ -139,6 +139,17 @@ Theorem C16_instance_all_iterations : forall f p t o,
   In (f, p) lock_programs -> admitted f = true -> exec p t o -> o <> OBrk -> well_locked t = true.
 Proof. exact instance_all_iterations. Qed.
 
+(* every single table operation is what rw_atomic needs: one critical section per table and call
+   (remove-by-source: one per address family; swap: one on each of the two tables).  Computed on the
+   regenerated skeletons; an operation that releases and re-takes the lock in mid-update breaks this. *)
+Theorem C16_one_section_per_operation : section_table = expected_sections.
+Proof. exact sections_as_expected. Qed.
+
+Theorem C16_helpers_lock_free : helpers_lock_free = true /\ 8 <= List.length helper_lock_calls.
+Proof. exact helpers_are_lock_free. Qed.
+
+Print Assumptions C16_one_section_per_operation.
+Print Assumptions C16_helpers_lock_free.
 Print Assumptions C16_race_free.
 Print Assumptions C16_protected.
 Print Assumptions C16_unlocked_read_races.
